@@ -29,3 +29,4 @@ GENERATORS.append(_extract_drivers.gen_cfg_drivers)
 # C02: static reference / free-name / hook-arity table of Mechanics.py
 from . import refs_c02 as _refs_c02   # noqa: E402
 GENERATORS.append(_refs_c02.generate)
+GENERATORS.append(_extract_drivers.gen_refs_nonlinear_solve)
